@@ -9,7 +9,10 @@ CHECKS = {
         category='proof',
         text='Every codec function (new/old packet lengths, subpacket lengths, MPI, S2K count) is symbolically executed from the real '
              'source and proved equal to RFC spec functions for its whole input domain (lengths 0..2^32-1, all MPI values, all 256 counts); '
-             'partial-length chains and timestamps are bounded stand-ins (stated in evidence).',
+             'the chunk loop of partial body lengths is proved by a two-state inductive loop contract (what is still to be read is untouched input, '
+             'collected bodies are not touched, exactly the length octets are removed, the total grows by the chunk length; the induction over the '
+             'iterations is the meta-argument) with whole chains compared natively against the recursive spec as bounded complement; '
+             'four-octet timestamps of aware datetimes are a bounded stand-in here (their deductive clauses are in C18/C08).',
         note=TB,
         technique='contract-based deductive verification: VCs generated from the Python AST of the real functions against sidecar '
                   'contracts, discharged by z3/cvc5; native replay of counter-models',
